@@ -19,3 +19,6 @@
 (lemma dropMarkersRank ((l Lst) (k String) (b Bool)) (<= (rankL (dropMarkers l k b)) (rankL l)) :induct l)
 (lemma flagsApp ((a Lst) (b Lst)) (>= (flagsInL (app a b)) (flagsInL b)) :induct a)
 (lemma slsetLen ((a SLst) (i Int) (x String)) (= (sllen (slset a i x)) (sllen a)) :induct a)
+(lemma keepAll ((a Lst) (b Lst)) (=> (allIn a b) (= (keepCommon a b) a)) :induct a)
+(lemma allInCons ((a Lst) (b Lst) (x Val)) (=> (allIn a b) (allIn a (LCons x b))) :induct a)
+(lemma allInRefl ((a Lst)) (allIn a a) :induct a :uses (allInCons))
